@@ -268,6 +268,27 @@ pub fn gen(tier: &str, seed: u64) -> Gen {
         cases.push(mk(&mut rng, t));
     }
     fams.push(("random trees to depth 5 with redundant parentheses and spacing".to_string(), nrand, false));
+    // mixed integer / float comparisons and arithmetic where the integer is not exactly a float or
+    // the float is integral and at or beyond 2^63 (the integer operand is promoted to a float)
+    let bigi: Vec<Term> = vec![
+        int(9223372036854775807), int(9223372036854775806), int(9007199254740993), int(9007199254740992), int(9007199254740991),
+        var("vm", "-9223372036854775808"), var("vm3", "-9007199254740993"), int(1),
+    ];
+    let bigf: Vec<Term> = vec![
+        flt("9007199254740992.0"), flt("9007199254740994.0"), flt("1e19"), var("vf19", "-1e19"), flt("9223372036854775808.0"),
+        flt("9.223372036854775807e18"), var("vfm", "-9223372036854775808.0"), flt("1e300"), flt("4503599627370497.5"), flt("1.0"),
+    ];
+    let mut nm = 0;
+    for o in &["<", ">", "<=", ">=", "==", "!=", "+", "-", "*"] {
+        for a in &bigi {
+            for b in &bigf {
+                cases.push(mk(&mut rng, bin(o, a.clone(), b.clone())));
+                cases.push(mk(&mut rng, bin(o, b.clone(), a.clone())));
+                nm += 2;
+            }
+        }
+    }
+    fams.push(("mixed integer / float comparisons and arithmetic around 2^53 and 2^63, both orders".to_string(), nm, true));
     (cases, fams)
 }
 
